@@ -43,27 +43,8 @@ def run(prog, rep, tier, repo):
             continue
         rep.touch(k)
         karg = ('arg', 2, f.names.get(2))
-        bodies = [f] + [prog.func(b.key) for b in pdb.closures_of(k)]
         bad = []
-        uses = 0
-        for g in bodies:
-            rep.touch(g.body.key)
-            terms = [s.value for s in g.stores()] + [a for c in g.calls() if not (c.path and c.path.endswith('::abs')) for a in c.args] + g.return_values() + \
-                [cn for gl in g.guards().values() for cn, v in gl]
-            # in closures the lag is an upvar: find which upvar carries it
-            leaf = karg
-            if g is not f:
-                leaf = None
-                for t in [a for c in f.calls() for a in c.args]:
-                    for z in subterms(t):
-                        if tag(z) == 'agg' and z[1] == 'closure' and z[2] == g.body.key:
-                            for i, u in enumerate(z[3]):
-                                if u == karg:
-                                    leaf = ('upvar', i)
-                if leaf is None:
-                    continue
-            for t in terms:
-                uses += _count_outside_abs(t, leaf, bad)
+        uses = _lag_uses(prog, rep, f, karg, bad, 0)
         if bad:
             rep.viol('even-in-lag', key, '%s uses the lag outside abs(): %s — the function is then not even in the lag' % (name, show(bad[0])[:120]), site_of(f.body))
         elif uses == 0:
@@ -260,6 +241,58 @@ def _raw_uses(e, icpt, out):
 
 def _adds_intercept(e, icpt):
     return e[0] == 'b' and e[1] == 'Add' and icpt in (e[2], e[3])
+
+
+def _lag_uses(prog, rep, f, karg, bad, depth):
+    """number of uses of parameter `karg` in f, its closures and the in-crate helpers it is handed to unchanged; uses that are not
+    directly under abs() are appended to bad.  Handing the raw lag to an in-crate helper is a use judged inside the helper."""
+    pdb = prog.pdb
+    k = f.body.key
+    bodies = [f] + [prog.func(b.key) for b in pdb.closures_of(k)]
+    uses = 0
+    for g in bodies:
+        rep.touch(g.body.key)
+        # in closures the lag is an upvar: find which upvar carries it
+        leaf = karg
+        if g is not f:
+            leaf = None
+            for t in [a for c in f.calls() for a in c.args]:
+                for z in subterms(t):
+                    if tag(z) == 'agg' and z[1] == 'closure' and z[2] == g.body.key:
+                        for i, u in enumerate(z[3]):
+                            if u == karg:
+                                leaf = ('upvar', i)
+            if leaf is None:
+                continue
+
+        def is_leaf(z, leaf=leaf):
+            return z == leaf or (tag(leaf) == 'upvar' and tag(z) == 'upvar' and z[1] == leaf[1])
+        terms = [s.value for s in g.stores()] + g.return_values() + [cn for gl in g.guards().values() for cn, v in gl]
+        for c in g.calls():
+            if c.path and c.path.endswith('::abs'):
+                continue
+            if c.path in pdb.bodies and depth < 3 and any(is_leaf(a) for a in c.args):
+                # the raw lag handed to an in-crate helper: judged by what the helper does with that parameter
+                h = prog.func(c.path)
+                for i, a in enumerate(c.args):
+                    if is_leaf(a):
+                        uses += _lag_uses(prog, rep, h, ('arg', i + 1, h.names.get(i + 1)), bad, depth + 1)
+                    else:
+                        terms.append(a)
+                continue
+            terms += list(c.args)
+        # a value that merely contains such a helper call (1/n * helper(ts, m, k)) repeats the call's arguments: drop them there
+        def strip_helper_calls(t, is_leaf=is_leaf):
+            from ..ir import map_term
+
+            def f_(n):
+                if tag(n) == 'call' and n[1] in pdb.bodies and not n[1].endswith('::abs') and any(is_leaf(a) for a in n[2]):
+                    return ('call', n[1], tuple(('const', 'usize', 0) if is_leaf(a) else a for a in n[2]), n[3])
+                return n
+            return map_term(t, f_)
+        for t in terms:
+            uses += _count_outside_abs(strip_helper_calls(t), leaf, bad)
+    return uses
 
 
 def _count_outside_abs(t, leaf, bad):
